@@ -18,6 +18,7 @@ GVMODEL = os.path.join(BUILD, "gvmodel")
 GOENV = dict(os.environ, GOFLAGS="-mod=mod", GOPROXY="off", GOSUMDB="off",
              GOTOOLCHAIN="local", CGO_ENABLED="0")
 
+LAST_MAKE_ERRORS = ""
 ALLOWED_AXIOMS = set()  # none: every property theorem must be closed under the global context
 
 FORBIDDEN = re.compile(
@@ -113,6 +114,8 @@ def coq_make(targets=None, timeout=3000):
         raise Broken("coq_makefile failed", out)
     cmd = ["timeout", str(timeout), "make", "-k", "-j16"] + (targets or [])
     rc, out = sh(cmd, cwd=COQ, timeout=timeout + 60)
+    global LAST_MAKE_ERRORS
+    LAST_MAKE_ERRORS = "\n".join(re.findall(r'File "[^"]+", line \d+, characters [^\n]*\n(?:.*\n){0,6}', out)[:4])
     return rc, out
 
 
@@ -126,7 +129,7 @@ def prove(prop_file, expect_theorems):
     if rc != 0:
         m = re.search(r'File "([^"]+)", line (\d+)', out)
         loc = "%s:%s" % (m.group(1), m.group(2)) if m else path
-        raise Broken("proof obligation no longer checks: %s" % loc, out[-3000:])
+        raise Broken("proof obligation no longer checks: %s" % loc, (LAST_MAKE_ERRORS + "\n" + out)[-4000:])
     src = open(os.path.join(COQ, path)).read()
     theorems = re.findall(r"^(?:Theorem|Lemma|Corollary|Example)\s+(\w+)", src, re.M)
     printed = re.findall(r"^Print Assumptions\s+(\w+)\.", src, re.M)
